@@ -54,6 +54,13 @@ func WithGlobalTx(ctx context.Context, gc *GtxConfig, business CallbackWithCtx) 
 		ctx = InitSeataContext(ctx)
 	}
 
+	// a nested scope that shares the context must leave the enclosing
+	// transaction (xid, role, name) as it found it
+	if outer := GetTx(ctx); outer != nil {
+		saved := *outer
+		defer SetTx(ctx, &saved)
+	}
+
 	if IsGlobalTx(ctx) {
 		clearTxConf(ctx)
 	}
